@@ -10,7 +10,7 @@ import (
 // done function, never deadlocks, Add after Stop is rejected; for every
 // interleaving of the goroutines below within the preemption bound.
 
-//verif:harness prop=C18 tier=quick replay=interp go=sched preempt=2 require=stopped,rejected,added bounds="1..2 worker goroutines each Add→work→done, 1..2 concurrent Stop calls, every interleaving with ≤2 preemptions at synchronisation operations"
+//verif:harness prop=C18 tier=quick replay=interp go=sched preempt=3 require=stopped,rejected,added bounds="1..2 worker goroutines each Add→work→done, 1..2 concurrent Stop calls, every interleaving with ≤3 delays at synchronisation operations"
 func VerifH_C18_tg_stop() {
 	tg := New()
 	nWorkers := vapi.Int("workers", 1, 2)
@@ -61,7 +61,7 @@ func isClosed(tg *ThreadGroup) bool {
 	}
 }
 
-//verif:harness prop=C18 tier=quick replay=interp go=sched preempt=2 require=cancelled-by-stop,cancelled-by-caller,rejected bounds="AddContext from a background or cancellable parent, concurrent Stop, caller cancel before/after; ≤2 preemptions"
+//verif:harness prop=C18 tier=quick replay=interp go=sched preempt=3 require=cancelled-by-stop,cancelled-by-caller,rejected bounds="AddContext from a background or cancellable parent, concurrent Stop, caller cancel before/after; ≤3 delays"
 func VerifH_C18_tg_context() {
 	tg := New()
 	parent, pcancel := context.WithCancel(context.Background())
